@@ -91,6 +91,16 @@ def table():
     t.append(("addr:local_array", PRE + fill + fn("", ["var a: [2]i32 = [1, 2];", "fill(&a, 9);"]), "accept"))
     t.append(("addr:member_of_local_struct", PRE + fill + fn("", ["var s = In { n: 1, k: [1, 2] };", "poke(&s.n);", "fill(&s.k, 3);"]), "accept"))
     t.append(("addr:through_pointer_param", PRE + fill + fn("s: &S", ["poke(&s.m);", "fill(&s.arr, 3);"]), "accept"))
+    # pointers to endless arrays (`&[..]T`, spelled `&[]T` in extern signatures): a view must not turn into one silently
+    endless = "fn efill(x: &[..]i32)\n{\n\tx[0] = 88;\n}\n"
+    ext = "extern fn xfill(x: &[]i32)\n{\n\tx[0] = 77;\n}\n"
+    t.append(("arg:view_to_endless_pointer", PRE + endless + fn("x: []i32", ["efill(x);"]), {512, 513, 530}))
+    t.append(("arg:view_to_extern_pointer", PRE + ext + fn("x: []i32", ["xfill(x);"]), {512, 513, 530}))
+    t.append(("arg:addr_of_view_to_endless_pointer", PRE + endless + fn("x: []i32", ["efill(&x);"]), {512, 513, 530}))
+    t.append(("arg:array_to_endless_pointer_without_addr", PRE + endless + fn("", ["var a: [3]i32 = [1, 2, 3];", "efill(a);"]), {512, 513}))
+    t.append(("arg:array_to_extern_pointer_without_addr", PRE + ext + fn("", ["var a: [3]i32 = [1, 2, 3];", "xfill(a);"]), {512, 513}))
+    t.append(("arg:constant_array_to_endless_pointer", PRE + endless + fn("", ["efill(&KA);"]), {512, 513, 530}))
+    t.append(("arg:struct_view_member_to_endless_pointer", PRE + endless + fn("s: S", ["efill(&s.arr);"]), {512, 513, 530}))
     # pointer parameter needs explicit &
     for ty, decl, arg in [("&i32", "var a: i32 = 1;", "a"), ("&[]i32", "var a: [2]i32 = [1, 2];", "a"),
                           ("&S", None, None), ("&Wd", "var a = Wd { p: 1, q: 2 };", "a"),
